@@ -26,8 +26,8 @@ META = dict(
     engine="E1-enum", level="exploration",
     technique="exhaustive enumeration of command lines (inputs x sub-command x binding mode x invocation x output "
               "target x locale) run as real subprocesses, bytes compared with in-process emit_c_code()",
-    text="Every combination of 6 (quick: 3) cdef texts (one with non-ASCII comments), 4 preludes (empty, ASCII, non-ASCII incl. a "
-         "non-BMP character, no trailing newline with %/backslash), 2 module names, 5 ways of naming the FFI "
+    text="Every combination of 6 (quick: 3) cdef texts (one with non-ASCII comments), 5 preludes (empty, ASCII, non-ASCII incl. a "
+         "non-BMP character, no trailing newline with %/backslash, first character U+FEFF), 2 module names, 5 ways of naming the FFI "
          "(read-sources; exec-python binding an FFI or a callable, under the default name or under --ffi-var with a "
          "decoy bound to the default name), both invocations (console entry point, python -m cffi.gen_src) and both "
          "output targets (file, '-') is executed; exit status must be 0 and the bytes written must equal what "
@@ -35,7 +35,7 @@ META = dict(
          "real subprocesses and all 960 also run in-process.  "
          "Quick: 40 command lines are real subprocesses and the full product over 3 cdef texts (480) is run inside forked "
          "workers with argv/stdout/cwd substituted, the two routes being cross-checked.  40 more subprocesses run under an ASCII locale (LC_ALL=C, "
-         "no coercion, no UTF-8 mode).",
+         "no coercion, no UTF-8 mode) and 24 (thorough 48) under six other string-hash seeds than the reference process.",
     note="reference bytes come from FFI.emit_c_code(path) in the check process (UTF-8 locale, cross-checked against "
          "emit_c_code(StringIO) encoded as UTF-8); input files are UTF-8 with LF line ends, no BOM")
 
